@@ -12,6 +12,12 @@ recorded trace is validated by Session_Trace."""
 # harness includes zero-length sends (the spec: accepted or refused, no effect either way).
 EMPTY_SENDS = True
 
+# Exit callbacks that end by panic(any value) / runtime.Goexit instead of returning: the pinned code
+# runs OnExit first inside exitOnce.Do, so such an ending skips count.Dec, sendQ.Close and conn.Close
+# (count stays, connection open, receive goroutine parked for ever).  The property lists a panic in
+# the READ handler, not in the exit callback, so this is off by default (harness flag -exitend).
+EXIT_ENDINGS = False
+
 
 def dirty_sources():
     """Files of the code under test (stcp and the send queue it is built on) that differ from
@@ -51,7 +57,7 @@ def run(ctx):
     ctx.harness(binary, ["-plans", pdir, "-out", steps_f, "-free", free_f, "-seed", ctx.seed,
                          "-rand", ctx.q(60, 1500), "-nfree", ctx.q(40, 500), "-nbulk", ctx.q(6, 30),
                          "-race", race_f, "-nrace", ctx.q(12000, 100000),
-                         "-empty=%s" % ("true" if EMPTY_SENDS else "false")],
+                         "-empty=%s" % ("true" if EMPTY_SENDS else "false")] + (["-exitend"] if EXIT_ENDINGS else []),
                 traces=[steps_f, race_f, free_f])
     steps = ctx.load_traces(steps_f)
     free = ctx.load_traces(free_f)
@@ -108,7 +114,9 @@ def run(ctx):
              "kinds (incl. a typed-nil IKeyZap that panics inside the log call) under a logger that renders every "
              "statement, every exported error of io / net / os / the send queue plain and wrapped out of Read, Write "
              "and the handler, bulk payloads of k*4096 / 65536 / 1024 +- 1 bytes, the same Server object restarted with "
-             "another limit while sessions carry over (reconf event).  Audit additions: handlers "
+             "another limit while sessions carry over (reconf event).  The read handler ends in every way a callback can: return nil, every error "
+             "kind, panic with a string / error / struct / int / typed nil / nil / nil error value, runtime.Goexit "
+             "(drawn by plans; also as poison frames on sockets).  Audit additions: handlers "
              "that call Send / Close from inside Read and from inside OnExit (recorded by the handler, call + "
              "record serialized with the driver's), temporary-but-not-timeout errors, all sessions of a fresh "
              "manager started at the same moment, option extremes (timeouts negative / 0 / 1 ms / 2^30 ms on "
